@@ -40,7 +40,9 @@ type BLS12PublicKey struct {
 
 // ToBytes marshals the public key to a byte slice.
 func (pub BLS12PublicKey) ToBytes() []byte {
-	return bls12.NewG1().ToCompressed(pub.p)
+	// ToCompressed normalizes its argument in place; work on a copy since public keys are shared between goroutines.
+	p := *pub.p
+	return bls12.NewG1().ToCompressed(&p)
 }
 
 // FromBytes unmarshals the public key from a byte slice.
@@ -215,7 +217,9 @@ func (bls *bls12Base) coreVerify(pubKey *BLS12PublicKey, message []byte, signatu
 	}
 	engine := bls12.NewEngine()
 	engine.AddPairInv(&bls12.G1One, signature)
-	engine.AddPair(pubKey.p, messagePoint)
+	// AddPair normalizes its arguments in place; work on a copy since public keys are shared between goroutines.
+	pk := *pubKey.p
+	engine.AddPair(&pk, messagePoint)
 	if !engine.Result().IsOne() {
 		return fmt.Errorf("bls12: failed to verify message")
 	}
@@ -290,7 +294,9 @@ func (bls *bls12Base) coreAggregateVerify(publicKeys []*BLS12PublicKey, messages
 		if err != nil {
 			return err
 		}
-		engine.AddPair(publicKeys[i].p, q)
+		// AddPair normalizes its arguments in place; work on a copy since public keys are shared between goroutines.
+		pk := *publicKeys[i].p
+		engine.AddPair(&pk, q)
 	}
 
 	engine.AddPairInv(&bls12.G1One, signature)
